@@ -1,6 +1,7 @@
 package exec
 
 import (
+	"os"
 	"fmt"
 	"go/token"
 	"go/types"
@@ -456,8 +457,11 @@ func (m *Machine) pos(ins ssa.Instruction) string {
 	return fmt.Sprintf("%s:%d", file, pp.Line)
 }
 
+// traceCalls (VERIF_TRACE_CALLS=1) records every call into the repository's code in the path trace (debugging aid).
+var traceCalls = os.Getenv("VERIF_TRACE_CALLS") != ""
+
 func (m *Machine) note(format string, args ...interface{}) {
-	if len(m.trace) < 400 {
+	if len(m.trace) < 400 || (traceCalls && len(m.trace) < 6000) {
 		m.trace = append(m.trace, fmt.Sprintf(format, args...))
 	}
 }
